@@ -94,6 +94,8 @@ pub fn check_spec(id: &str) -> Option<CheckSpec> {
       lanes: vec![
         lane("conc/sync/liveness", conc("sync-live", |p| { p.asyncness = 0; p.cancel = false; p.hold_open_pct = 60; }), 400_000, 12_000_000),
         lane("conc/sync/liveness/no-faults", conc("sync-live-nf", |p| { p.asyncness = 0; p.cancel = false; p.hold_open_pct = 60; p.faults = false; }), 200_000, 6_000_000),
+        // multi-producer bounded flavours only: claim / overshoot / credit-window races need producers that collide
+        lane("conc/sync/liveness/bounded-contention", conc("sync-live-bc", |p| { p.asyncness = 0; p.cancel = false; p.hold_open_pct = 60; p.flavours = vec![Flavour::MpscBounded, Flavour::MpmcBounded]; }), 300_000, 9_000_000),
         lane("spmc/sync/liveness", spmc(true, 0, false, true), 150_000, 4_500_000),
         lane("topic/sync/liveness", topic(true, 0, false, true, true), 100_000, 3_000_000),
       ],
